@@ -310,11 +310,12 @@ impl<'a> DwarfUnwinder<'a> {
         )?;
 
         let mut bt = vec![FrameSpan::new(self.debugee, ecx.location())?];
-        let mut visited_ips = HashSet::new();
-        visited_ips.insert(frame_0_location.pc);
         let Some(mut ucx) = mb_ucx else {
             return Ok(bt);
         };
+        // a frame is identified by its return address and its CFA: recursive calls
+        // return to the same address but each activation has its own CFA
+        let mut visited_frames = HashSet::new();
 
         // start unwind
         while let Some(return_addr) = ucx.return_address() {
@@ -326,7 +327,7 @@ impl<'a> DwarfUnwinder<'a> {
                 break;
             }
 
-            if !visited_ips.insert(return_addr) {
+            if !visited_frames.insert((return_addr, ucx.cfa)) {
                 break;
             }
 
